@@ -791,6 +791,7 @@ func (x *Exec) convertTo(st *State, v Val, t types.Type) Val {
 		// boxing a concrete value into an interface: injective per source sort, never nil unless the source is a nil pointer
 		fn := "box_" + sanitize(v.Sort) + "_to_" + ts
 		x.vc.declFun(fn, []string{v.Sort}, ts)
+		x.vc.termFact(fmt.Sprintf("(forall ((a!b %s) (b!b %s)) (! (=> (= (%s a!b) (%s b!b)) (= a!b b!b)) :pattern ((%s a!b) (%s b!b))))", v.Sort, v.Sort, fn, fn, fn, fn))
 		r := Val{T: fmt.Sprintf("(%s %s)", fn, v.T), Sort: ts, GoT: t}
 		x.vc.termFact(not(eq(r.T, x.vc.nilTerm(ts))))
 		return r
